@@ -121,9 +121,7 @@ fn parse_state(s: &str) -> Option<Vec<E>> {
         .collect()
 }
 
-fn ts(secs: i64) -> rustic_core::jiff::Timestamp {
-    rustic_core::jiff::Timestamp::from_second(secs).unwrap()
-}
+use crate::dispatch::c11::{stamp, ts};
 
 /// in-memory source: explicit bytes per file
 #[derive(Clone)]
@@ -564,6 +562,29 @@ fn edit(rng: &mut Rng, b: &[u8], stats: &mut Stats) -> Vec<u8> {
     v
 }
 
+/// A later time stamp of a file that was written again.  Time stamps are full (second, nanosecond) pairs (see `c11::stamp`):
+/// most rewrites happen within the SAME second as the previous write (only the nanoseconds differ: by 1 ns, 1 µs, 1 ms, half a
+/// second, across the .999999999 border), some in a later second with equal or other nanoseconds.
+fn bump(rng: &mut Rng, m: i64, stats: &mut Stats) -> i64 {
+    use crate::dispatch::c11::{stamp_nanos, stamp_secs};
+    let (s, n) = (stamp_secs(m), stamp_nanos(m) as u32);
+    match rng.below(8) {
+        0 => {
+            stats.hit("c07.mtime.next-second-same-nanos");
+            stamp(s + 1, n)
+        }
+        1 => {
+            stats.hit("c07.mtime.later-second-other-nanos");
+            stamp(s + 1 + rng.below(3) as i64, rng.below(1_000_000_000) as u32)
+        }
+        _ => {
+            stats.hit("c07.mtime.same-second-other-nanos");
+            let d = *rng.pick(&[1u32, 1, 1000, 1_000_000, 500_000_000, 999_999_999]);
+            stamp(s, (n + d) % 1_000_000_000)
+        }
+    }
+}
+
 fn intern(table: &mut Vec<Content>, c: Content) -> usize {
     if let Some(i) = table.iter().position(|x| *x == c) {
         i
@@ -596,7 +617,8 @@ fn gen_hist(rng: &mut Rng, stats: &mut Stats, thorough: bool) -> String {
             continue;
         }
         let c = intern(&mut table, Content::Bytes(gen_bytes(rng, stats)));
-        _ = files.insert(p, (K::File, 100 + rng.below(3) as i64, c));
+        let nanos = *rng.pick(&[0u32, 0, 1, 999_999_999, 123_456_789, 500_000_000]);
+        _ = files.insert(p, (K::File, stamp(100 + rng.below(3) as i64, nanos), c));
     }
     let mut states = vec![to_entries(&files)];
     let n_states = if thorough { 2 + rng.below(4) } else { 1 + rng.below(3) };
@@ -605,7 +627,7 @@ fn gen_hist(rng: &mut Rng, stats: &mut Stats, thorough: bool) -> String {
         // new mtime in every state, so that a parent-based backup never takes it for unchanged (that case is C11's)
         for v in files.values_mut() {
             if v.0 == K::File && matches!(table.get(v.2), Some(Content::TreeOf(_))) {
-                v.1 += 1;
+                v.1 = bump(rng, v.1, stats);
             }
         }
         for _ in 0..rng.below(3) {
@@ -617,7 +639,7 @@ fn gen_hist(rng: &mut Rng, stats: &mut Stats, thorough: bool) -> String {
                     if let Content::Bytes(b) = table[c].clone() {
                         let nb = edit(rng, &b, stats);
                         let nc = intern(&mut table, Content::Bytes(nb));
-                        _ = files.insert(p, (K::File, m + 1, nc));
+                        _ = files.insert(p, (K::File, bump(rng, m, stats), nc));
                     }
                 }
                 5 if !file_paths.is_empty() => {
@@ -651,7 +673,13 @@ fn gen_hist(rng: &mut Rng, stats: &mut Stats, thorough: bool) -> String {
                     let d = dirs[1 + rng.below(n_dirs as u64 - 1) as usize].clone();
                     let c = intern(&mut table, Content::TreeOf(d));
                     let name: &[u8] = if rng.chance(1, 2) { b"0coll" } else { b"zcoll" };
-                    _ = files.insert(vec![name.to_vec()], (K::File, 100, c));
+                    // a collision file that exists already keeps changing its stamp (its content follows the directory's tree and
+                    // may keep its size: with the old stamp a parent-based backup would rightly take it for unchanged — C11's case)
+                    let m = match files.get(&vec![name.to_vec()]) {
+                        Some(old) => bump(rng, old.1, stats),
+                        None => 100,
+                    };
+                    _ = files.insert(vec![name.to_vec()], (K::File, m, c));
                 }
                 _ => {
                     stats.hit("c07.edit.new-file");
@@ -690,7 +718,51 @@ fn gen_pack(rng: &mut Rng, stats: &mut Stats) -> String {
     format!("c07 pack {small} {small2} {}", if adds.is_empty() { "-".into() } else { adds.join(",") })
 }
 
+/// Directed histories (every run, whatever the seed): one file overwritten IN PLACE — same length, same name — between consecutive
+/// parent-based backups, where the time stamp of the rewrite differs from the recorded one (a) only in the nanoseconds (same second:
+/// +1 ns, -1 ns, across .999999999), (b) only in the seconds (equal nanoseconds), (c) not at all but the size does (append).  Every
+/// chunk the overwrite creates must be uploaded and the tree id must change ("after an edit, every chunk that did not exist before is
+/// uploaded"); then an unchanged state (nothing added, same tree id).  Also run forced (no parent) as the reference.
+fn directed_hist(ops: &mut Vec<String>, stats: &mut Stats) {
+    let mut r = Rng::new(0xC07_D1EC);
+    for (k, (n0, n1)) in [(0u32, 1u32), (5, 4), (999_999_998, 999_999_999), (123_456_789, 623_456_789)].into_iter().enumerate() {
+        for parent in [1, 0] {
+            let len = 700 + 300 * k;
+            let b0 = r.bytes(len);
+            let mut b1 = b0.clone();
+            for x in &mut b1[len / 2..len / 2 + 40] {
+                *x ^= 0x5a;
+            }
+            let mut b2 = b1.clone();
+            for x in &mut b2[..3] {
+                *x = x.wrapping_add(1);
+            }
+            let mut b3 = b2.clone();
+            b3.extend(r.bytes(10));
+            let other = r.bytes(300);
+            let table = vec![Content::Bytes(b0), Content::Bytes(b1), Content::Bytes(b2), Content::Bytes(b3), Content::Bytes(other)];
+            let st = |m: i64, c: usize| {
+                vec![
+                    E { path: vec![b"d".to_vec()], kind: K::Dir, mtime: 50, content: 0 },
+                    E { path: vec![b"d".to_vec(), b"g".to_vec()], kind: K::File, mtime: stamp(100, 7), content: 4 },
+                    E { path: vec![b"f".to_vec()], kind: K::File, mtime: m, content: c },
+                ]
+            };
+            let states = [
+                st(stamp(100, n0), 0),
+                st(stamp(100, n1), 1), // same second, other nanoseconds, same size
+                st(stamp(101, n1), 2), // next second, same nanoseconds, same size
+                st(stamp(101, n1), 2), // unchanged
+                st(stamp(101, n1), 3), // same time stamp, other size
+            ];
+            stats.hit("c07.hist.directed.same-size-overwrite");
+            ops.push(format!("c07 hist {parent} 64 64 256 {} {}", enc_table(&table), states.iter().map(|s| enc_state(s)).collect::<Vec<_>>().join("|")));
+        }
+    }
+}
+
 pub fn generate(thorough: bool, rng: &mut Rng, ops: &mut Vec<String>, stats: &mut Stats) {
+    directed_hist(ops, stats);
     for _ in 0..(if thorough { 1500 } else { 120 }) {
         let mut r = rng.fork();
         ops.push(gen_hist(&mut r, stats, thorough));
